@@ -19,6 +19,25 @@ CLAIMS = {
              "every regex entry point must use the outer deadline. Time is a solver variable, not a sleep.",
         technique="symbolic clock + symbolic execution of the real interpreter loop (CrossHair/z3), one-step lemma",
         design_ref="DESIGN.md section 4 (C01)"),
+    "C02": dict(
+        text="(1) One-step lemma on the real accounting in VM._check_limits for arbitrary stack/frame depths and M. "
+             "(2) Runaway half: 24 recursion shapes (self, mutual, constructor, every callback-taking built-in, "
+             "accessors, conversions, call/apply/bind, nested eval/Function) run on the real interpreter with M "
+             "symbolic in [300,4000]: the outcome must be MemoryLimitError, no instruction may run above the limit "
+             "and no script handler may observe the stop. (3) No-residue half: for every program of the control-flow "
+             "skeleton family (loop kind x exit kind x enclosing construct x expression context, try/finally and "
+             "caught mid-expression throws) with symbolic loop bound and exit selectors, a monitor asserts that "
+             "every revisit of a loop head sees the same operand/handler depths and that nothing is left after the "
+             "program - the inductive step that makes the iteration count irrelevant.",
+        technique="symbolic execution of the real VM with depth monitors (CrossHair/z3), one-step lemma + inductive residue invariant",
+        design_ref="DESIGN.md section 4 (C02)"),
+    "C05": dict(
+        text="Differential symbolic execution: the real compiler+VM and a definitional ECMAScript interpreter "
+             "(vf/refsem/interp.py) run the same skeleton program on the same symbolic data (loop bound, exit "
+             "selectors, closure call sequence); log, completion value and uncaught-error status must agree on "
+             "every feasible path. The solver, not a sampler, chooses which iteration takes which exit.",
+        technique="differential symbolic execution vs definitional interpreter (CrossHair/z3)",
+        design_ref="DESIGN.md section 4 (C05)"),
     "C06": dict(
         text="Each real opcode handler (and the compiled compound/update/logical forms through eval) is executed "
              "symbolically against a transcription of the ECMAScript abstract operations: all IEEE doubles and all "
